@@ -47,7 +47,8 @@ def img(t, p):
 def basic_case(draw, tier="quick"):
     what = draw(st.sampled_from(["translation", "rotation2", "rotation3", "scaling", "reflection2", "reflection3", "affine", "identity"]))
     return {"what": what, "v": [draw(C.ints(9)) for _ in range(16)], "a": draw(st.integers(-23, 23)), "b": draw(st.integers(-23, 23)),
-            "form": draw(st.sampled_from(["tuple", "point"])), "s": draw(C.scale()), "through_origin": draw(st.booleans()), "idt": draw(st.booleans())}
+            "form": draw(st.sampled_from(["tuple", "point"])), "s": draw(C.scale()), "through_origin": draw(st.booleans()), "idt": draw(st.booleans()),
+            "turns": draw(st.sampled_from([0, 0, 0, 3, 400, 2000])), "frac": draw(st.integers(-7, 7))}
 
 
 def run_basic(c):
@@ -75,7 +76,8 @@ def run_basic(c):
         ck.check(isinstance(t, Transformation), "translation:type")
         return ck.result()
     if what == "rotation2":
-        a, b = c["a"] * math.pi / 12, c["b"] * math.pi / 12
+        # angles of many turns and not only multiples of 15 degrees: k*pi/12 + j/16 + 2*pi*turns (the reference uses the same float)
+        a, b = c["a"] * math.pi / 12 + c.get("frac", 0) / 16 + 2 * math.pi * c.get("turns", 0), c["b"] * math.pi / 12
         t, f = call("rotation", rotation, a)
         if f:
             return [f]
@@ -93,7 +95,8 @@ def run_basic(c):
         ck.check(C.peq_all(t.inverse().array, rotation(-a).array, 2, 1e-9), "rotation2:inverse")
         return ck.result()
     if what == "rotation3":
-        a, b = c["a"] * math.pi / 12, c["b"] * math.pi / 12
+        # angles of many turns and not only multiples of 15 degrees: k*pi/12 + j/16 + 2*pi*turns (the reference uses the same float)
+        a, b = c["a"] * math.pi / 12 + c.get("frac", 0) / 16 + 2 * math.pi * c.get("turns", 0), c["b"] * math.pi / 12
         ax = np.array(v[:3], float)
         if not np.any(ax):
             raise Skip("zero axis")
@@ -307,7 +310,7 @@ def run_conics(c):
 
 
 LAWS = [
-    Law("constructors", lambda tier: basic_case(tier), run_basic, basic_nontrivial, lambda c: [c["what"], c["form"], "int-dtype" if c.get("idt") else "float-dtype"], {"quick": 2500, "thorough": 40000},
+    Law("constructors", lambda tier: basic_case(tier), run_basic, basic_nontrivial, lambda c: ([("many-turns" if c.get("turns", 0) >= 400 else "few-turns")] if c["what"].startswith("rotation") else []) + [c["what"], c["form"], "int-dtype" if c.get("idt") else "float-dtype"], {"quick": 2500, "thorough": 40000},
         "translation, rotation (2D, axis), scaling, reflection, affine_transform, identity vs Cartesian closed forms", shard=400),
     Law("from_points", lambda tier: frame_case(tier), run_frame, lambda c: True, frame_labels, {"quick": 1200, "thorough": 20000},
         "Transformation.from_points maps each of the n+2 source points to its target", shard=400, mandatory=("has-infinite", "d2", "d3")),
